@@ -13,7 +13,8 @@ struct C19 {
 	std::string frag; int frag_op = 0; bool frag_comp = false; bool in_frag = false;
 	uint64_t echoed = 0;
 	bool lenient = false;   // an allocation failed while this connection existed: which messages come back is not predictable, but what comes back must still be a valid (inflatable) message
-	bool stray_sent = false, stray_closed = false;   // a FIN continuation frame that continues nothing was sent: RFC 6455 5.4 makes it a protocol error (1002)
+	bool stray_sent = false, stray_closed = false;   // a frame sequence that RFC 6455 5.2/5.4 makes a protocol error (1002) was sent (op member "stray", kind in "vkind")
+	std::deque<std::string> pongs;                   // payloads of pings sent inside fragmented messages: each must come back in a pong, in order
 	~C19() { if (def_init) deflateEnd(&def); if (inf_init) inflateEnd(&inf); }
 };
 
@@ -119,6 +120,25 @@ void World::c19_on_handshake_response(Client &cl, const Frame &f) {
 	if (!c.def_init || !c.inf_init) harness_error("system zlib refuses the negotiated window sizes");
 }
 
+// RFC 7692 7.2.3.4: a compressor may end a message with a block that has BFINAL set (deflate with Z_FINISH); it then appends an empty stored block, of which
+// the last four bytes are removed again: one 0x00 byte remains. The compressor starts afresh afterwards (it refers to nothing it sent before).
+static std::string c19_deflate_bfinal(C19 &c, const std::string &msg) {
+	std::string out; out.resize(msg.size() + msg.size() / 8 + 64);
+	c.def.next_in = (Bytef *)msg.data(); c.def.avail_in = (uInt)msg.size();
+	size_t have = 0;
+	for (;;) {
+		c.def.next_out = (Bytef *)&out[have]; c.def.avail_out = (uInt)(out.size() - have);
+		int rc = deflate(&c.def, Z_FINISH);
+		have = out.size() - c.def.avail_out;
+		if (rc == Z_STREAM_END) break;
+		out.resize(out.size() * 2);
+	}
+	out.resize(have);
+	out += '\0';
+	deflateReset(&c.def);
+	return out;
+}
+
 static std::string c19_deflate(C19 &c, const std::string &msg) {
 	std::string out; out.resize(msg.size() + msg.size() / 8 + 64);
 	c.def.next_in = (Bytef *)msg.data(); c.def.avail_in = (uInt)msg.size();
@@ -161,15 +181,25 @@ void World::c19_send(Client &cl, const Op &op) {
 	C19 &c = *cl.c19;
 	if (c.broken) return;
 	if (op.a.getb("stray")) {
-		std::string b = ws_frame(0, hexdec(op.a.gets("hex")).substr(0, 20), true, true, (uint32_t)mix64(plan.seed, op.uid), 0, 0);
-		c.stray_sent = true; probe("c19_stray_continuation_sent");
+		std::string pl = hexdec(op.a.gets("hex")).substr(0, 20), vk = op.a.gets("vkind", "stray");
+		uint32_t mk = (uint32_t)mix64(plan.seed, op.uid);
+		std::string b;
+		if (vk == "rsv23") b = ws_frame(1 + (int)(mk & 1), pl, true, true, mk, (mk & 2) ? 2 : (mk & 4) ? 1 : 6, 0);                     // RSV2 / RSV3 are never negotiated
+		else if (vk == "ctrl_rsv1") b = ws_frame((mk & 1) ? 9 : 10, pl, true, true, mk, 4, 0);                                           // control frames are never compressed
+		else if (vk == "newstart") b = ws_frame(1, pl, false, true, mk, 0, 0) + ws_frame(1 + (int)(mk & 1), pl, false, true, mk + 1, 0, 0);   // a second start frame inside a fragmented message
+		else if (vk == "whole_inside") b = ws_frame(2, pl, false, true, mk, 0, 0) + ws_frame(1, pl, true, true, mk + 1, 0, 0);           // a whole data message inside a fragmented message
+		else if (vk == "cont_rsv") b = ws_frame(1, pl, false, true, mk, 0, 0) + ws_frame(0, pl, (mk & 1) != 0, true, mk + 1, (mk & 2) ? 1 : 2, 0); // RSV2 / RSV3 on a continuation frame (RSV1 there is tolerated by the daemon with permessage-deflate, and its own test suite demands that: no expectation)
+		else b = ws_frame(0, pl, true, true, mk, 0, 0);
+		c.stray_sent = true; probe("c19_stray_continuation_sent"); probe("c19_violation:" + vk);
 		send_from_client(cl, b, op.a.get("seg"), (uint64_t)op.a.getd("gap", 0), op.uid);
 		return;
 	}
 	std::string msg = hexdec(op.a.gets("hex"));
 	int opcode = op.a.getb("bin") ? 2 : 1;
 	bool comp = c.negotiated && !op.a.getb("plain");
-	std::string payload = comp ? c19_deflate(c, msg) : msg;
+	bool bfinal = comp && op.a.getb("bfinal");
+	std::string payload = bfinal ? c19_deflate_bfinal(c, msg) : comp ? c19_deflate(c, msg) : msg;
+	if (bfinal) probe("c19_bfinal_message_sent");
 	if (comp) { probe("c19_compressed_message_sent"); if (payload.size() < msg.size()) probe("c19_payload_shrunk"); if (msg.empty()) probe("c19_empty_message"); }
 	// a frame whose payload does not fit the daemon's read buffer ends the connection (the configured limit, not a defect): such a message is not sent
 	size_t biggest = payload.size();
@@ -197,6 +227,11 @@ void World::c19_send(Client &cl, const Op &op) {
 		bytes += ws_frame(first ? opcode : 0, payload.substr(off, n), last, true, (uint32_t)mix64(plan.seed, op.uid * 131 + i), first && comp ? 4 : 0, 0);
 		off += n; i++; first = false;
 		if (last) break;
+		if (i == 1 && op.a.getb("ping_inside")) {   // control frames may be injected in the middle of a fragmented message (RFC 6455 5.4)
+			std::string pp = "ping-" + std::to_string(op.uid);
+			bytes += ws_frame(9, pp, true, true, (uint32_t)mix64(plan.seed, op.uid * 977), 0, 0);
+			c.pongs.push_back(pp); probe("c19_ping_inside_fragmented_message");
+		}
 	} while (true);
 	if (i > 1) probe("c19_fragmented_message");
 	if (op.a.getb("omit_last") && i > 1) {
@@ -217,6 +252,10 @@ void World::c19_on_frame(Client &cl, const Frame &f) {
 	if (!f.minimal) violation("C12", "non-minimal-length", "server frame length is not minimally encoded");
 	if (f.wsop >= 8) {
 		probe("ws_ctrl_from_daemon:" + std::to_string(f.wsop)); if (f.rsv) violation("C19", "compressed-control-frame", "server control frame with RSV bits set");
+		if (f.wsop == 10 && !c.broken && !c.lenient && !cl.no_expect) {
+			if (c.pongs.empty() || c.pongs.front() != f.raw) violation("C12", "wrong-pong", "connection c" + std::to_string(cl.idx) + ": pong with payload '" + ascii_safe(f.raw.substr(0, 40)) + "' answers no ping sent" + (c.pongs.empty() ? "" : " (expected '" + ascii_safe(c.pongs.front()) + "')"));
+			else { c.pongs.pop_front(); probe("c19_pong_inside_fragmented_message"); }
+		}
 		if (f.wsop == 8 && c.stray_sent && !c.broken && !c.lenient && !cl.no_expect && c.expect.empty()) {
 			int st = f.raw.size() >= 2 ? (((unsigned char)f.raw[0]) << 8) | (unsigned char)f.raw[1] : 0;
 			if (st != 1002) violation("C12", "wrong-close-status", "a continuation frame that continues nothing was answered with close status " + std::to_string(st) + " instead of 1002");
@@ -258,6 +297,8 @@ void World::c19_quiescent() {
 		if (cl.c19->stray_sent && cl.c19->expect.empty() && !cl.c19->stray_closed && !cl.daemon_closed && cl.space < 0 && cl.chunks_queued == 0)
 			violation("C12", "stray-continuation-not-refused", "connection c" + std::to_string(cl.idx) + ": a FIN continuation frame that continues nothing was neither answered with a close frame nor was the connection released");
 		if (cl.c19->stray_sent) continue;
+		if (!cl.daemon_closed && !cl.c19->pongs.empty() && cl.space < 0 && cl.chunks_queued == 0)
+			violation("C12", "ping-not-answered", "connection c" + std::to_string(cl.idx) + ": a ping sent between two fragments of a message was not answered with a pong although the event loop is idle");
 		if (cl.daemon_closed && !cl.c19->expect.empty())
 			violation("C19", "connection-dropped", "connection c" + std::to_string(cl.idx) + " was closed by the server although it only sent valid messages (" + std::to_string(cl.c19->expect.size()) + " still unanswered)");
 		if (!cl.daemon_closed && !cl.c19->expect.empty() && cl.space < 0 && cl.chunks_queued == 0)
